@@ -23,6 +23,31 @@ Arguments N.modulo : simpl never.
 Arguments N.min : simpl never.
 Arguments N.max : simpl never.
 
+(* lia with the non-arithmetic hypotheses cleared first (zify is slow on large contexts); falls
+   back on plain lia *)
+Local Ltac ca_arith_hyp T :=
+  lazymatch T with
+  | @eq ?A _ _ =>
+    lazymatch A with
+    | N => idtac | nat => idtac | Z => idtac | positive => idtac | bool => idtac
+    end
+  | N.le _ _ => idtac | N.lt _ _ => idtac | N.ge _ _ => idtac | N.gt _ _ => idtac
+  | le _ _ => idtac | lt _ _ => idtac | ge _ _ => idtac | gt _ _ => idtac
+  | Z.le _ _ => idtac | Z.lt _ _ => idtac | Z.ge _ _ => idtac | Z.gt _ _ => idtac
+  | ~ _ => idtac | _ /\ _ => idtac | _ \/ _ => idtac | _ <-> _ => idtac | False => idtac
+  | ?A -> ?C => idtac
+  end.
+Local Ltac ca_prune :=
+  repeat match goal with
+  | H : ?T |- _ =>
+    lazymatch type of T with Prop => idtac end;
+    first [ ca_arith_hyp T; revert H | clear H ]
+  end.
+Local Ltac ca_lia := first [ solve [ca_prune; lia] | lia ].
+(* the same with the hypotheses to keep given explicitly *)
+Local Tactic Notation "ca_lia" "using" ne_hyp_list(Hs) :=
+  first [ solve [clear - Hs; lia] | ca_lia ].
+
 (* ====================================================================== *)
 (* 0. small list facts                                                    *)
 (* ====================================================================== *)
@@ -32,9 +57,9 @@ Lemma app_split_len {A} : forall (a b c d : list A),
 Proof.
   induction a as [|x a IH]; intros b c d H Hl.
   - exists c. split; [reflexivity|exact H].
-  - destruct c as [|y c]; [cbn [length] in Hl; lia|].
+  - destruct c as [|y c]; [cbn [length] in Hl; ca_lia|].
     cbn [app] in H. injection H as -> H. cbn [length] in Hl.
-    destruct (IH b c d H ltac:(lia)) as (m & -> & ->). exists m. split; reflexivity.
+    destruct (IH b c d H ltac:(ca_lia)) as (m & -> & ->). exists m. split; reflexivity.
 Qed.
 
 Lemma combine_app_l {A B} : forall (l1 l1' : list A) (l2 l2' : list B),
@@ -42,7 +67,7 @@ Lemma combine_app_l {A B} : forall (l1 l1' : list A) (l2 l2' : list B),
 Proof.
   induction l1 as [|a l1 IH]; intros l1' [|b l2] l2' H; cbn [length] in H; try discriminate.
   - reflexivity.
-  - cbn [app combine]. f_equal. apply IH. lia.
+  - cbn [app combine]. f_equal. apply IH. ca_lia.
 Qed.
 
 Lemma combine_split_len {A B} (tags : list A) (l1 l2 : list B) :
@@ -51,8 +76,8 @@ Lemma combine_split_len {A B} (tags : list A) (l1 l2 : list B) :
                 combine tags (l1 ++ l2) = combine t1 l1 ++ combine t2 l2.
 Proof.
   intros H. exists (firstn (length l1) tags), (skipn (length l1) tags).
-  assert (H1 : length (firstn (length l1) tags) = length l1) by (rewrite firstn_length; lia).
-  assert (H2 : length (skipn (length l1) tags) = length l2) by (rewrite skipn_length; lia).
+  assert (H1 : length (firstn (length l1) tags) = length l1) by (rewrite firstn_length; ca_lia).
+  assert (H2 : length (skipn (length l1) tags) = length l2) by (rewrite skipn_length; ca_lia).
   split; [now rewrite firstn_skipn|]. split; [exact H1|]. split; [exact H2|].
   rewrite <- (firstn_skipn (length l1) tags) at 1. now apply combine_app_l.
 Qed.
@@ -96,7 +121,7 @@ Proof.
   - rewrite Epre, Esuf, <- Hsplit. exact Hleg.
   - rewrite Epre, Esuf, <- Hsplit. exact EF.
   - intros q rf n Eq. rewrite Epre, Esuf. destruct (Hcov q rf n Eq) as (Hc & Hr). split.
-    + eapply Forall_impl; [|exact Hr]. intros r (j & f & e & Ej & _). lia.
+    + eapply Forall_impl; [|exact Hr]. intros r (j & f & e & Ej & _). ca_lia.
     + intros _. rewrite Hsuf, existsb_app, Hc. apply orb_true_r.
   - rewrite apply_entries_replay_entries in EqS.
     exists qS. split; [exact EqS|]. split; [exact HiS|].
@@ -175,8 +200,8 @@ Local Notation PInv := (PInv P).
 Local Notation Inv := (Inv P).
 Local Notation stream_bound := (stream_bound P).
 
-Lemma HB0c : 0 < B. Proof. lia. Qed.
-Lemma FBc_pos : 0 < FB. Proof. pose proof (FB_ge_B P HB0c HNB). lia. Qed.
+Lemma HB0c : 0 < B. Proof using HBS_lo HBS_hi HNB. (ca_lia using HBS_lo). Qed.
+Lemma FBc_pos : 0 < FB. Proof using HBS_lo HBS_hi HNB. pose proof (FB_ge_B P HB0c HNB). (ca_lia using H HBS_lo). Qed.
 
 (* (1c) the shape of the log of one call: nothing, or the call's own entry followed by position
    entries for queues that are empty after it *)
@@ -185,7 +210,7 @@ Lemma step_log_shape st o :
   exists e rest, step_log P st o = (w_file (s_wr st), e) :: rest /\
     forall qs_m, apply_entry (s_qs st) (w_file (s_wr st)) e = Some qs_m -> nodup_names qs_m ->
       pos_extra (abs_qs qs_m) (map snd rest).
-Proof.
+Proof using Type.
   destruct o as [q|q hint|q pos payloads|q p hint|a]; cbn [step_log].
   - unfold create_log. destruct (qs_contains (s_qs st) q); [now left|right].
     eexists _, []. split; [reflexivity|]. intros qs_m _ _. apply pos_extra_nil.
@@ -223,7 +248,7 @@ Theorem call_entries_atomic st G o tick st' out :
     qs_inv qs' /\ nodup_names qs' /\
     (Xd = [] -> forall q, s_get (abs_qs qs') q = s_get (abs_qs (s_qs st)) q) /\
     (Xd <> [] -> forall q, s_get (abs_qs qs') q = s_get (abs_qs (s_qs st')) q).
-Proof.
+Proof using HBS_lo HBS_hi HNB Hcrc HGC.
   intros HI Hop Hb Hstep Hno Xd Xr HX tags Hlen.
   pose proof HI as (HP & HL).
   destruct Xd as [|x Xd'].
@@ -283,12 +308,12 @@ Proof.
   destruct (linv_pos_extra qs_m lo (gh_snoc G f e) fx HL1) as (HL2 & _).
   { now rewrite Efx. }
   { unfold fx. apply Forall_forall. intros fe Hin. apply in_map_iff in Hin.
-    destruct Hin as (y & <- & _). cbn [fst]. lia. }
+    destruct Hin as (y & <- & _). cbn [fst]. (ca_lia using HBS_lo). }
   assert (EE : map snd (gh_E (gh_app (gh_snoc G f e) fx)) = map snd (gh_E G) ++ e :: Xd').
   { cbn [gh_app gh_snoc gh_E]. rewrite !map_app, Efx. cbn [map snd]. now rewrite <- app_assoc. }
   destruct (linv_restart_equal _ _ _ HL2 tags) as (qs' & H1 & H2' & H3' & H4).
   { apply (f_equal (@length entry)) in EE. rewrite map_length in EE. rewrite EE.
-    rewrite app_length, map_length. cbn [length] in *. lia. }
+    rewrite app_length, map_length. cbn [length] in *. (ca_lia using Hlen). }
   rewrite EE in H1.
   exists qs'. split; [exact H1|]. split; [exact H2'|]. split; [exact H3'|].
   split; [discriminate|]. intros _ q. rewrite Eqm. apply H4.
@@ -303,20 +328,20 @@ Lemma img_ok_exists fs0 lo f0 off0 img D fc short n :
   img_ok P fs0 f0 off0 img D fc short ->
   (forall x, lo <= x <= f0 -> full_file P fs0 x) -> lo <= f0 -> fc <= U64_MAX ->
   lo <= n <= fc -> exists b, fs_get img (filename n) = Some (FFile b).
-Proof.
+Proof using HBS_lo HBS_hi HNB Hcrc.
   intros (Hle & Hout & Hin & _) Hfull Hlo Hmax Hn.
   destruct (N.lt_ge_cases n f0) as [Hlt|Hge].
   - rewrite Hout.
-    + destruct (Hfull n ltac:(lia)) as (b & Hb & _). now exists b.
-    + intros x Hx. apply filename_neq; lia.
-  - destruct (Hin n ltac:(lia)) as (b & Hb & _). now exists b.
+    + destruct (Hfull n ltac:((ca_lia using Hlt Hn))) as (b & Hb & _). now exists b.
+    + intros x Hx. apply filename_neq; (ca_lia using Hn Hmax Hx Hlt).
+  - destruct (Hin n ltac:((ca_lia using Hge Hn))) as (b & Hb & _). now exists b.
 Qed.
 
 Lemma img_ok_below fs0 f0 off0 img D fc short n :
   img_ok P fs0 f0 off0 img D fc short -> fc <= U64_MAX -> n < f0 ->
   fs_get img (filename n) = fs_get fs0 (filename n).
-Proof.
-  intros (Hle & Hout & _) Hmax Hn. apply Hout. intros x Hx. apply filename_neq; lia.
+Proof using HBS_lo HBS_hi HNB Hcrc.
+  intros (Hle & Hout & _) Hmax Hn. apply Hout. intros x Hx. apply filename_neq; (ca_lia using Hn Hmax Hle Hx).
 Qed.
 
 Definition top_file (img : fsT) (fc : N) : Prop :=
@@ -326,11 +351,11 @@ Definition top_file (img : fsT) (fc : N) : Prop :=
 Lemma img_ok_top fs0 f0 off0 img D fc short :
   img_ok P fs0 f0 off0 img D fc short -> good P fs0 f0 U64_MAX -> fc <= U64_MAX ->
   top_file img fc.
-Proof.
+Proof using HBS_lo HBS_hi HNB Hcrc.
   intros (Hle & Hout & Hin & _) (_ & Hnone) Hmax. split.
-  - destruct (Hin fc ltac:(lia)) as (b & Hb & _). now exists b.
-  - intros n H1 H2'. rewrite Hout; [apply Hnone; lia|].
-    intros x Hx. apply filename_neq; lia.
+  - destruct (Hin fc ltac:((ca_lia using Hle))) as (b & Hb & _). now exists b.
+  - intros n H1 H2'. rewrite Hout; [apply Hnone; (ca_lia using H1 Hle H2')|].
+    intros x Hx. apply filename_neq; (ca_lia using H2' Hx Hmax H1).
 Qed.
 
 Lemma crash_unlinks lo f0 off0 NEW f1 off1 evs pe fs0 :
@@ -345,7 +370,7 @@ Lemma crash_unlinks lo f0 off0 NEW f1 off1 evs pe fs0 :
        fs_get (fold_left apply_event evs fs0) (filename n) = fs_get fs0 (filename n)) /\
     (exists b, fs_get (fold_left apply_event pe fs0) (filename (lo + N.of_nat mu)) = Some (FFile b)) /\
     exists fc, fc <= f1 /\ top_file (fold_left apply_event pe fs0) fc.
-Proof.
+Proof using HBS_lo HBS_hi HNB Hcrc.
   intros Hct Hpe Hgood Hfull Hlo Hmax.
   assert (Hbase : img_ok P fs0 f0 off0 fs0 [] f0 false) by exact (HW img_base fs0 f0 off0 _ Hgood).
   (* a crash inside the data writes: nothing is unlinked *)
@@ -356,8 +381,8 @@ Proof.
     destruct (HW wtrace_img_pre _ _ _ _ _ _ Htr pe fs0 U64_MAX Hc Hgood Hmax (N.le_refl _))
       as (fc & short & Hfc & Hok).
     pose proof Hok as (Hle & _). split.
-    - apply (img_ok_exists fs0 lo f0 off0 _ _ fc short _ Hok Hfull Hlo); lia.
-    - exists fc. split; [exact Hfc|]. apply (img_ok_top _ _ _ _ _ _ _ Hok Hgood). lia. }
+    - apply (img_ok_exists fs0 lo f0 off0 _ _ fc short _ Hok Hfull Hlo); (ca_lia using Hfc Hmax Hle Hlo).
+    - exists fc. split; [exact Hfc|]. apply (img_ok_top _ _ _ _ _ _ _ Hok Hgood). (ca_lia using Hfc Hmax). }
   (* the whole call, with m unlinks after the data writes wevs *)
   assert (Hfull' : forall wevs tl (m : nat), wtrace P f0 off0 wevs NEW f1 off1 ->
             (forall fs, fold_left apply_event tl fs = remove_files fs (iota lo m)) ->
@@ -373,33 +398,33 @@ Proof.
     pose proof (HW wtrace_img_full _ _ _ _ _ _ Htr fs0 U64_MAX Hgood Hmax (N.le_refl _)) as Hok.
     destruct (img_ok_top _ _ _ _ _ _ _ Hok Hgood Hmax) as ((b & Hb) & Habove).
     split; [|split; [|split]].
-    - intros n Hn. apply fs_get_removed. apply iota_In. lia.
+    - intros n Hn. apply fs_get_removed. apply iota_In. (ca_lia using Hn).
     - intros n Hn. rewrite fs_get_remove_files_other.
-      + apply (img_ok_below fs0 f0 off0 _ _ f1 false n Hok); lia.
-      + intros y Hy. apply iota_In in Hy. apply filename_neq; lia.
+      + apply (img_ok_below fs0 f0 off0 _ _ f1 false n Hok); (ca_lia using Hmax Hn Hlo).
+      + intros y Hy. apply iota_In in Hy. apply filename_neq; (ca_lia using Hy Hm Hmax Hn).
     - rewrite fs_get_remove_files_other.
-      + apply (img_ok_exists fs0 lo f0 off0 _ _ f1 false _ Hok Hfull Hlo); lia.
-      + intros y Hy. apply iota_In in Hy. apply filename_neq; lia.
-    - exists f1. split; [lia|]. split.
+      + apply (img_ok_exists fs0 lo f0 off0 _ _ f1 false _ Hok Hfull Hlo); (ca_lia using Hmax Hm).
+      + intros y Hy. apply iota_In in Hy. apply filename_neq; (ca_lia using Hy Hm Hmax).
+    - exists f1. split; [(ca_lia using HBS_lo)|]. split.
       + exists b. rewrite fs_get_remove_files_other; [exact Hb|].
-        intros y Hy. apply iota_In in Hy. apply filename_neq; lia.
+        intros y Hy. apply iota_In in Hy. apply filename_neq; (ca_lia using Hy Hm Hmax).
       + intros n H1 H2'. apply fs_get_remove_files_none. now apply Habove. }
   destruct Hct as [E -> ->|wevs a Htr|wevs m a Htr Hm].
-  - inversion Hpe; subst. exists 0%nat, 0%nat. cbn [fold_left]. split; [lia|]. split; [lia|].
-    split; [intros n Hn; lia|]. split; [reflexivity|]. split.
-    + apply (img_ok_exists fs0 lo f0 off0 _ _ f0 false _ Hbase Hfull Hlo); lia.
-    + exists f0. split; [lia|]. apply (img_ok_top _ _ _ _ _ _ _ Hbase Hgood). lia.
+  - inversion Hpe; subst. exists 0%nat, 0%nat. cbn [fold_left]. split; [(ca_lia using HBS_lo)|]. split; [(ca_lia using Hlo)|].
+    split; [intros n Hn; (ca_lia using Hn)|]. split; [reflexivity|]. split.
+    + apply (img_ok_exists fs0 lo f0 off0 _ _ f0 false _ Hbase Hfull Hlo); (ca_lia using Hmax Hlo).
+    + exists f0. split; [(ca_lia using HBS_lo)|]. apply (img_ok_top _ _ _ _ _ _ _ Hbase Hgood). (ca_lia using Hmax).
   - pose proof (HW wtrace_le _ _ _ _ _ _ Htr) as Hle.
     destruct (noop_fold _ (flush_group_noop f1 a)) as [G1 _].
     assert (Hnil : forall fs, fold_left apply_event (flush_group f1 a) fs =
                               remove_files fs (iota lo 0)) by (intros fs; now rewrite G1).
-    destruct (Hfull' wevs _ 0%nat Htr Hnil ltac:(lia)) as (F1 & F2 & F3).
-    exists 0%nat, 0%nat. split; [lia|]. split; [lia|]. split; [exact F1|]. split; [exact F2|].
+    destruct (Hfull' wevs _ 0%nat Htr Hnil ltac:((ca_lia using Hle Hlo))) as (F1 & F2 & F3).
+    exists 0%nat, 0%nat. split; [(ca_lia using HBS_lo)|]. split; [(ca_lia using Hle Hlo)|]. split; [exact F1|]. split; [exact F2|].
     destruct (cpre_app_inv _ _ _ Hpe) as [Hc|(pt & -> & Hc)]; [now apply (Hpart wevs)|].
     destruct (noop_fold _ (noop_cpre _ _ (flush_group_noop f1 a) Hc)) as [K1 _].
     assert (Hnil' : forall fs, fold_left apply_event pt fs = remove_files fs (iota lo 0))
       by (intros fs; now rewrite K1).
-    now destruct (Hfull' wevs _ 0%nat Htr Hnil' ltac:(lia)) as (_ & _ & K3).
+    now destruct (Hfull' wevs _ 0%nat Htr Hnil' ltac:((ca_lia using Hle Hlo))) as (_ & _ & K3).
   - assert (Htl : forall fs, fold_left apply_event
                     (flush_group f1 true ++ unlinks lo m ++ flush_group f1 a) fs =
                     remove_files fs (iota lo m)).
@@ -409,11 +434,11 @@ Proof.
     destruct (Hfull' wevs _ m Htr Htl Hm) as (F1 & F2 & F3).
     destruct (cpre_app_inv _ _ _ Hpe) as [Hc|(pt & -> & Hc)].
     + pose proof (HW wtrace_le _ _ _ _ _ _ Htr) as Hle.
-      exists m, 0%nat. split; [lia|]. split; [lia|]. split; [exact F1|]. split; [exact F2|].
+      exists m, 0%nat. split; [(ca_lia using HBS_lo)|]. split; [(ca_lia using Hm)|]. split; [exact F1|]. split; [exact F2|].
       now apply (Hpart wevs).
     + destruct (HN tail_prefix _ _ _ _ _ _ Hc) as (mu & Hmu & K1 & _).
-      exists m, mu. split; [exact Hmu|]. split; [lia|]. split; [exact F1|]. split; [exact F2|].
-      now destruct (Hfull' wevs pt mu Htr K1 ltac:(lia)) as (_ & _ & K3).
+      exists m, mu. split; [exact Hmu|]. split; [(ca_lia using Hmu Hm)|]. split; [exact F1|]. split; [exact F2|].
+      now destruct (Hfull' wevs pt mu Htr K1 ltac:((ca_lia using Hmu Hm))) as (_ & _ & K3).
 Qed.
 
 (* ====================================================================== *)
@@ -435,13 +460,13 @@ Definition wabs' (w : rwriter) : N := w_file w * FB + w_off w.
 
 Lemma tracker_next_iota : forall m lo cur,
   lo <= cur -> cur + 1 < lo + N.of_nat m -> tracker_next (iota lo m) cur = Some (cur + 1).
-Proof.
-  induction m as [|m IH]; intros lo cur H1 H2'; [lia|].
-  cbn [iota tracker_next]. destruct (N.ltb_spec cur lo) as [H|_]; [lia|].
+Proof using HBS_lo HBS_hi HNB.
+  induction m as [|m IH]; intros lo cur H1 H2'; [(ca_lia using H2' H1)|].
+  cbn [iota tracker_next]. destruct (N.ltb_spec cur lo) as [H|_]; [(ca_lia using H H1)|].
   destruct (N.eq_dec cur lo) as [->|Hne].
-  - destruct m as [|m]; [lia|]. cbn [iota tracker_next].
-    destruct (N.ltb_spec lo (lo + 1)) as [_|H]; [reflexivity|lia].
-  - apply IH; lia.
+  - destruct m as [|m]; [(ca_lia using H2')|]. cbn [iota tracker_next].
+    destruct (N.ltb_spec lo (lo + 1)) as [_|H]; [reflexivity|(ca_lia using H)].
+  - apply IH; (ca_lia using Hne H1 H2').
 Qed.
 
 (* rolling over into a file that already exists *)
@@ -452,10 +477,10 @@ Lemma wr_write_roll_existing w d nxt b :
   exists w', wr_write P w d = (w', Ok tt) /\
     w_files w' = w_files w /\ w_file w' = nxt /\ w_off w' = lenN d /\
     c_plan (w_ctx w') = None /\ vfs w' = fs_write (vfs w) nxt 0 d /\ wf w'.
-Proof.
+Proof using HBS_lo HBS_hi HNB Hcrc.
   intros Hd Hroll Hnext Hex Hplan. unfold wr_write. destruct d as [|x d'] eqn:Ed; [congruence|].
   rewrite <- Ed in *. clear Ed x d'.
-  destruct (N.ltb_spec FB (w_off w + lenN d)) as [_|H]; [|lia].
+  destruct (N.ltb_spec FB (w_off w + lenN d)) as [_|H]; [|(ca_lia using H Hroll)].
   fold (synced w).
   pose proof (synced_pending w) as P1. pose proof (synced_key w) as Q1.
   pose proof (synced_fs w) as V1.
@@ -470,7 +495,7 @@ Proof.
   destruct (bw_write_all_wrote P w2 d Hd (wf_nil w2 eq_refl)) as (Hk & Hv & Hw').
   apply wkey_fields in Hk. destruct Hk as (K1 & K2 & K3 & K4).
   eexists. split; [reflexivity|].
-  split; [exact K1|]. split; [exact K2|]. split; [rewrite K3; unfold w2; cbn [w_off]; lia|].
+  split; [exact K1|]. split; [exact K2|]. split; [rewrite K3; unfold w2; cbn [w_off]; (ca_lia using HBS_lo)|].
   split.
   { assert (E : c_plan (w_ctx (bw_write_all P w2 d)) = c_plan c2) by (apply cmeta_plan; exact K4).
     now rewrite E. }
@@ -480,31 +505,31 @@ Qed.
 
 Lemma dir_of_write fs files n off d :
   dir_of fs files -> n <= U64_MAX -> In n files -> dir_of (fs_write fs n off d) files.
-Proof. intros H1 H2' H3'. unfold fs_write. now apply dir_of_put_in. Qed.
+Proof using Type. intros H1 H2' H3'. unfold fs_write. now apply dir_of_put_in. Qed.
 
 (* one block write under kinv *)
 Lemma kinv_write w d :
   kinv w -> lenN d <= wr_rem P w -> wabs' w + lenN d <= FB * (U64_MAX + 1) ->
   exists w', wr_write P w d = (w', Ok tt) /\ kinv w' /\ wabs' w' = wabs' w + lenN d.
-Proof.
+Proof using HBS_lo HBS_hi HNB Hcrc.
   intros (Hwf & Hoff & Hplan & lo & n & Hfiles & Hlo & Hhi & Hmax & Hdir & Hfresh) Hlen Hb.
   destruct d as [|x d'] eqn:Ed.
   { exists w. split; [reflexivity|]. split.
     - repeat (split; [assumption|]). exists lo, n. repeat (split; [assumption|]). exact Hfresh.
-    - rewrite (@lenN_nil byte). lia. }
+    - rewrite (@lenN_nil byte). (ca_lia using HBS_lo). }
   rewrite <- Ed in *. assert (Hd : d <> []) by (rewrite Ed; discriminate). clear Ed x d'.
   pose proof (lenN_pos d Hd) as Hpos.
-  assert (Hin : In (w_file w) (w_files w)) by (rewrite Hfiles; apply iota_In; lia).
+  assert (Hin : In (w_file w) (w_files w)) by (rewrite Hfiles; apply iota_In; (ca_lia using Hhi Hlo)).
   unfold wabs' in *. unfold wr_rem in Hlen.
   destruct (N.le_gt_cases (w_off w + lenN d) FB) as [Hfit|Hroll].
   - destruct (wr_write_fit P HB0c HNB w d Hd Hwf Hfit) as (w' & Hw & K1 & K2 & K3 & K4 & Hv & Hwf').
-    exists w'. split; [exact Hw|]. split; [|rewrite K2, K3; lia].
-    split; [exact Hwf'|]. split; [lia|]. split; [congruence|].
+    exists w'. split; [exact Hw|]. split; [|rewrite K2, K3; (ca_lia using HBS_lo)].
+    split; [exact Hwf'|]. split; [(ca_lia using K3 Hfit)|]. split; [congruence|].
     exists lo, n. rewrite K1, K2, Hv.
     split; [exact Hfiles|]. split; [exact Hlo|]. split; [exact Hhi|]. split; [exact Hmax|].
-    split; [apply dir_of_write; [exact Hdir|lia|exact Hin]|].
+    split; [apply dir_of_write; [exact Hdir|(ca_lia using Hmax Hhi)|exact Hin]|].
     intros y Hy1 Hy2. rewrite fs_get_write_other; [now apply Hfresh|].
-    apply filename_neq; lia.
+    apply filename_neq; (ca_lia using Hmax Hhi Hy2 Hy1).
   - assert (Hend : w_off w = FB) by (apply (fit_or_end P HB0c HNB _ (lenN d)); assumption).
     destruct (N.eq_dec (w_file w) (lo + N.of_nat n)) as [Elast|Hnl].
     + (* a new file *)
@@ -512,39 +537,39 @@ Proof.
       assert (Hok : wr_ok w).
       { split; [apply contiguous_iota; now exists lo, n|].
         rewrite Hfiles, (HN iota_last). now rewrite Elast. }
-      assert (Hfr : fs_get (vfs w) (filename (w_file w + 1)) = None) by (apply Hfresh; lia).
+      assert (Hfr : fs_get (vfs w) (filename (w_file w + 1)) = None) by (apply Hfresh; (ca_lia using Elast Hu1)).
       destruct (wr_write_roll P HB0c HNB w d Hd Hok Hroll Hfr)
         as (w' & Hw & K1 & K2 & K3 & K4 & Hv & Hwf').
-      exists w'. split; [exact Hw|]. split; [|rewrite K2, K3; lia].
+      exists w'. split; [exact Hw|]. split; [|rewrite K2, K3; (ca_lia using Hend)].
       assert (HlenFB : lenN d <= FB).
-      { pose proof (FB_ge_B P HB0c HNB). pose proof (N.mod_lt (w_off w) B ltac:(lia)). lia. }
-      split; [exact Hwf'|]. split; [lia|]. split; [congruence|].
+      { pose proof (FB_ge_B P HB0c HNB). pose proof (N.mod_lt (w_off w) B ltac:((ca_lia using HBS_lo))). (ca_lia using H Hlen). }
+      split; [exact Hwf'|]. split; [(ca_lia using HlenFB K3)|]. split; [congruence|].
       exists lo, (S n). rewrite K1, K2, Hv.
       assert (Ef' : w_files w ++ [w_file w + 1] = iota lo (S (S n))).
-      { rewrite Hfiles, (iota_snoc (S n)). do 2 f_equal. lia. }
-      split; [exact Ef'|]. split; [lia|]. split; [lia|]. split; [lia|].
+      { rewrite Hfiles, (iota_snoc (S n)). do 2 f_equal. (ca_lia using Elast). }
+      split; [exact Ef'|]. split; [(ca_lia using Hlo)|]. split; [(ca_lia using Hhi)|]. split; [(ca_lia using Hu1 Elast)|].
       unfold fs_write. rewrite fs_put_put.
       split.
-      * apply (dir_of_put _ (w_files w)); [exact Hdir|lia|].
+      * apply (dir_of_put _ (w_files w)); [exact Hdir|(ca_lia using Hu1)|].
         intros y. rewrite in_app_iff. cbn [In]. intuition.
-      * intros y Hy1 Hy2. rewrite fs_get_put_other; [apply Hfresh; lia|].
-        apply filename_neq; lia.
+      * intros y Hy1 Hy2. rewrite fs_get_put_other; [apply Hfresh; (ca_lia using Hy1 Hy2)|].
+        apply filename_neq; (ca_lia using Hu1 Hy2 Hy1 Hhi).
     + (* the next file is already there *)
       assert (Hnext : tracker_next (w_files w) (w_file w) = Some (w_file w + 1)).
-      { rewrite Hfiles. apply tracker_next_iota; lia. }
-      assert (Hin1 : In (w_file w + 1) (w_files w)) by (rewrite Hfiles; apply iota_In; lia).
-      destruct (proj2 (Hdir (w_file w + 1) ltac:(lia)) Hin1) as (bb & Hbb).
+      { rewrite Hfiles. apply tracker_next_iota; (ca_lia using Hlo Hnl Hhi). }
+      assert (Hin1 : In (w_file w + 1) (w_files w)) by (rewrite Hfiles; apply iota_In; (ca_lia using Hnl Hhi Hlo)).
+      destruct (proj2 (Hdir (w_file w + 1) ltac:((ca_lia using Hnl Hmax Hhi))) Hin1) as (bb & Hbb).
       destruct (wr_write_roll_existing w d _ bb Hd Hroll Hnext Hbb Hplan)
         as (w' & Hw & K1 & K2 & K3 & K4 & Hv & Hwf').
-      exists w'. split; [exact Hw|]. split; [|rewrite K2, K3; lia].
+      exists w'. split; [exact Hw|]. split; [|rewrite K2, K3; (ca_lia using Hend)].
       assert (HlenFB : lenN d <= FB).
-      { pose proof (FB_ge_B P HB0c HNB). pose proof (N.mod_lt (w_off w) B ltac:(lia)). lia. }
-      split; [exact Hwf'|]. split; [lia|]. split; [exact K4|].
+      { pose proof (FB_ge_B P HB0c HNB). pose proof (N.mod_lt (w_off w) B ltac:((ca_lia using HBS_lo))). (ca_lia using H Hlen). }
+      split; [exact Hwf'|]. split; [(ca_lia using HlenFB K3)|]. split; [exact K4|].
       exists lo, n. rewrite K1, K2, Hv.
-      split; [exact Hfiles|]. split; [lia|]. split; [lia|]. split; [exact Hmax|].
-      split; [apply dir_of_write; [exact Hdir|lia|exact Hin1]|].
+      split; [exact Hfiles|]. split; [(ca_lia using Hlo)|]. split; [(ca_lia using Hnl Hhi)|]. split; [exact Hmax|].
+      split; [apply dir_of_write; [exact Hdir|(ca_lia using Hnl Hmax Hhi)|exact Hin1]|].
       intros y Hy1 Hy2. rewrite fs_get_write_other; [now apply Hfresh|].
-      apply filename_neq; lia.
+      apply filename_neq; (ca_lia using Hnl Hmax Hhi Hy2 Hy1).
 Qed.
 
 (* the record writer under kinv: simulated by the in-memory writer at the absolute position *)
@@ -552,46 +577,46 @@ Definition ksim (w : rwriter) (v : vecw) : Prop := kinv w /\ vw_cursor v = wabs'
 Definition kG (v : vecw) : Prop := vw_cursor v <= FB * (U64_MAX + 1).
 
 Lemma ksim_rem w v : ksim w v -> wr_rem P w = vw_rem P v.
-Proof.
+Proof using HBS_lo HBS_hi HNB.
   intros (_ & Hc). unfold wr_rem, vw_rem. rewrite Hc. unfold wabs'.
   now rewrite (pos_mod P HB0c HNB).
 Qed.
 
 Lemma kG_back v d : kG (fst (vw_write v d)) -> kG v.
-Proof. unfold kG, vw_write. cbn [fst vw_cursor]. lia. Qed.
+Proof using HBS_lo HBS_hi HNB Hcrc. unfold kG, vw_write. cbn [fst vw_cursor]. (ca_lia using HBS_lo). Qed.
 
 Lemma ksim_write w v d : ksim w v -> lenN d <= vw_rem P v -> kG (fst (vw_write v d)) ->
   snd (wr_write P w d) = snd (vw_write v d) /\ ksim (fst (wr_write P w d)) (fst (vw_write v d)).
-Proof.
+Proof using HBS_lo HBS_hi HNB Hcrc.
   intros Hs Hlen HG. pose proof (ksim_rem w v Hs) as Hrem. destruct Hs as (Hk & Hc).
   unfold kG, vw_write in *. cbn [fst snd vw_cursor] in *.
-  destruct (kinv_write w d Hk ltac:(lia) ltac:(lia)) as (w' & -> & Hk' & Hpos).
-  cbn [fst snd]. split; [reflexivity|]. split; [exact Hk'|]. cbn [vw_cursor]. lia.
+  destruct (kinv_write w d Hk ltac:((ca_lia using Hrem Hlen)) ltac:((ca_lia using HG Hc))) as (w' & -> & Hk' & Hpos).
+  cbn [fst snd]. split; [reflexivity|]. split; [exact Hk'|]. cbn [vw_cursor]. (ca_lia using Hpos Hc).
 Qed.
 
 Lemma kinv_write_record w p w' r :
   kinv w -> cursor_after (wabs' w) [p] <= FB * (U64_MAX + 1) ->
   write_record P rwriter (wr_write P) (wr_rem P) w p = (w', r) ->
   (exists k, r = Ok k) /\ kinv w' /\ wabs' w' = cursor_after (wabs' w) [p].
-Proof.
+Proof using HBS_lo HBS_hi HNB Hcrc.
   intros Hk Hb Hwr.
   set (v := mkVecW (wabs' w) []).
   destruct (H3 write_record_vecw v p) as (e & k & Hrel & Hv).
   assert (Ee : enc_of (wabs' w) p = e) by exact (H3 enc_rel_enc_of _ _ _ _ Hrel).
   assert (Ecur : cursor_after (wabs' w) [p] = wabs' w + lenN e).
   { rewrite (H3 cursor_after_cons), (H2 cursor_after_nil), Ee. reflexivity. }
-  assert (HB7 : HEADER_LEN <= B) by (unfold HEADER_LEN; lia).
+  assert (HB7 : HEADER_LEN <= B) by (unfold HEADER_LEN; (ca_lia using HBS_lo)).
   destruct (write_record_sim P HB7 rwriter vecw (wr_write P) (wr_rem P) vw_write (vw_rem P)
               ksim kG ksim_rem kG_back ksim_write (vw_pad_full P HB0c HNB) w v p) as (Hs & Hk' & Hc').
   - split; [exact Hk|reflexivity].
-  - rewrite Hv. unfold kG, v. cbn [fst vw_cursor]. lia.
+  - rewrite Hv. unfold kG, v. cbn [fst vw_cursor]. (ca_lia using Ecur Hb).
   - rewrite Hwr, Hv in *. unfold v in *. cbn [fst snd vw_cursor] in *.
-    split; [eexists; exact Hs|]. split; [exact Hk'|]. lia.
+    split; [eexists; exact Hs|]. split; [exact Hk'|]. (ca_lia using Hc' Ecur).
 Qed.
 
 Lemma cursor_after_cons1 a p ps :
   cursor_after a (p :: ps) = cursor_after (cursor_after a [p]) ps.
-Proof. now rewrite !(H3 cursor_after_cons), (H2 cursor_after_nil). Qed.
+Proof using HBS_lo HBS_hi Hcrc. now rewrite !(H3 cursor_after_cons), (H2 cursor_after_nil). Qed.
 
 (* the position entries *)
 Lemma kinv_record_positions names : forall st acc st' r,
@@ -599,7 +624,7 @@ Lemma kinv_record_positions names : forall st acc st' r,
   cursor_after (wabs' (s_wr st)) (ser (map snd (rp_log P st names))) <= FB * (U64_MAX + 1) ->
   record_positions P st names acc = (st', r) ->
   (exists n, r = Ok n) /\ kinv (s_wr st') /\ s_qs st' = s_qs st /\ s_pol st' = s_pol st.
-Proof.
+Proof using HBS_lo HBS_hi HNB Hcrc.
   induction names as [|n names IH]; intros st acc st' r Hk Hb Hrp; cbn [record_positions] in Hrp.
   - inversion Hrp; subst. split; [eexists; reflexivity|]. auto.
   - cbn [rp_log] in Hb. destruct (qs_get (s_qs st) n) as [q|] eqn:Eq; [|now apply (IH st acc)].
@@ -610,7 +635,7 @@ Proof.
     rewrite cursor_after_cons1 in Hb.
     assert (Hb1 : cursor_after (wabs' (s_wr st)) [entry_ser e] <= FB * (U64_MAX + 1)).
     { pose proof (Hge (ser (map snd (match r1 with Ok _ => rp_log P st1 names | Err _ => [] end)))
-                      (cursor_after (wabs' (s_wr st)) [entry_ser e])). lia. }
+                      (cursor_after (wabs' (s_wr st)) [entry_ser e])). (ca_lia using H Hb). }
     pose proof Ew as Ew'. unfold write_entry in Ew'.
     destruct (write_record P rwriter (wr_write P) (wr_rem P) (s_wr st) (entry_ser e)) as [w1 rr] eqn:Ewr.
     inversion Ew'; subst st1 r1. clear Ew'.
@@ -623,7 +648,7 @@ Proof.
 Qed.
 
 Lemma kinv_persist w a : kinv w -> kinv (wr_persist w a) /\ w_pending (wr_persist w a) = [].
-Proof.
+Proof using HBS_lo HBS_hi HNB.
   intros (Hwf & Hoff & Hplan & lo & n & Hfiles & Hlo & Hhi & Hmax & Hdir & Hfresh).
   pose proof (wr_persist_key w a) as Hk. apply wkey_fields in Hk.
   destruct Hk as (K1 & K2 & K3 & K4).
@@ -631,7 +656,7 @@ Proof.
   assert (Hv : vfs (wr_persist w a) = vfs w).
   { rewrite (vfs_nil _ Hp). apply wr_persist_fs. }
   split; [|exact Hp].
-  split; [now apply wf_nil|]. split; [lia|]. split; [rewrite <- Hplan; now apply cmeta_plan|].
+  split; [now apply wf_nil|]. split; [(ca_lia using K3 Hoff)|]. split; [rewrite <- Hplan; now apply cmeta_plan|].
   exists lo, n. rewrite K1, K2, Hv. repeat (split; [assumption|]). exact Hfresh.
 Qed.
 
@@ -641,7 +666,7 @@ Theorem kinv_gc_ok st hint st' r :
   phys_bound P (s_wr st) (map snd (gc_log P st hint)) ->
   run_gc_if_necessary P st hint = (st', r) ->
   (exists n, r = Ok n) /\ s_qs st' = s_qs st /\ s_pol st' = s_pol st.
-Proof.
+Proof using HBS_lo HBS_hi HNB Hcrc HGC.
   intros Hk Hb Hgc. unfold run_gc_if_necessary in Hgc. unfold gc_log, phys_bound in Hb.
   destruct (has_deletable st) eqn:Hd.
   2:{ inversion Hgc; subst. split; [now exists 0|]. auto. }
@@ -659,7 +684,7 @@ Proof.
   rewrite (vfs_nil _ Hp1) in Hdir.
   destruct (gc_loop_dir _ _ _ _ _ _ Egc) as (_ & ->).
   - apply contiguous_iota. now exists lo, n.
-  - intros x Hx. rewrite Hfiles in Hx. apply iota_In in Hx. lia.
+  - intros x Hx. rewrite Hfiles in Hx. apply iota_In in Hx. (ca_lia using Hx Hmax).
   - exact Hdir.
   - inversion Hgc; subst. split; [now exists k|]. split; [exact Eqs0|exact Epol0].
 Qed.
@@ -676,11 +701,11 @@ Lemma finish_ok img lo' hi base w0 tags sts pf qs' pol hint :
   (forall extra, pos_extra (abs_qs qs') extra ->
      FB * base + cursor_after pf (ser extra) <= FB * (U64_MAX + 1)) ->
   exists st_r, open_finish P w0 qs' pol hint = OpenOk st_r /\ s_qs st_r = qs'.
-Proof.
+Proof using HBS_lo HBS_hi HNB Hcrc HGC.
   intros Hle Hmax Hbase Hdir (Htop1 & Htop2) Hspec Hnd Hb.
   destruct Hspec as (_ & _ & _ & _ & Hfiles & Hlo & Hhi & Hoff & Hpf & Hpend & Hfs & Hplan).
   set (n := N.to_nat (hi - lo')) in *.
-  assert (Ecur : lo' + N.of_nat n = hi) by (unfold n; lia).
+  assert (Ecur : lo' + N.of_nat n = hi) by (unfold n; (ca_lia using Hle)).
   rewrite Ecur in Hhi.
   assert (Hk : kinv w0).
   { split; [now apply wf_nil|]. split; [exact Hoff|]. split; [exact Hplan|].
@@ -688,17 +713,17 @@ Proof.
     split; [exact Hfiles|]. split; [exact Hlo|]. split; [exact Hhi|]. split; [exact Hmax|].
     rewrite Hfiles. change (iota lo' (S n)) with (nfiles lo' hi).
     split.
-    - unfold zext. apply dir_of_put_in; [exact Hdir|exact Hmax|]. apply (HN nfiles_In); lia.
+    - unfold zext. apply dir_of_put_in; [exact Hdir|exact Hmax|]. apply (HN nfiles_In); (ca_lia using Hle).
     - intros x Hx1 Hx2. unfold zext. rewrite fs_get_put_other; [now apply Htop2|].
-      apply filename_neq; lia. }
+      apply filename_neq; (ca_lia using Hmax Hx2 Hx1). }
   set (st0 := mkSt w0 qs' pol).
   assert (Hphys : phys_bound P (s_wr st0) (map snd (gc_log P st0 hint))).
   { unfold phys_bound, wabs. cbn [st0 s_wr].
     replace (w_file w0 * FB + w_off w0) with (base * FB + pf).
-    2:{ rewrite <- Hpf. assert (E : w_file w0 = base + (w_file w0 - base)) by lia.
-        rewrite E at 2. rewrite N.mul_add_distr_r. lia. }
+    2:{ rewrite <- Hpf. assert (E : w_file w0 = base + (w_file w0 - base)) by (ca_lia using Hlo Hbase).
+        rewrite E at 2. rewrite N.mul_add_distr_r. (ca_lia using HBS_lo). }
     rewrite (cursor_after_shift P HBS_lo HBS_hi HNB Hcrc) by apply (HN mulFB_mod).
-    pose proof (Hb _ (gc_log_pos_extra P st0 hint Hnd)). lia. }
+    pose proof (Hb _ (gc_log_pos_extra P st0 hint Hnd)). (ca_lia using H). }
   unfold open_finish. fold st0.
   destruct (run_gc_if_necessary P st0 hint) as [st1 r] eqn:Egc.
   destruct (kinv_gc_ok st0 hint st1 r Hk Hphys Egc) as ((k & ->) & Eqs & _).
@@ -717,16 +742,16 @@ Lemma ghost_stream es xs c0 z :
     T ++ zerosN (c0 - lenN T) ++ encs_of c0 xs ++ zerosN z = encs_of 0 (es ++ xs) ++ zerosN zz /\
     lenN (encs_of 0 (es ++ xs)) <= c0 + lenN (encs_of c0 xs) /\
     (xs <> [] -> lenN (encs_of 0 (es ++ xs)) = c0 + lenN (encs_of c0 xs)).
-Proof.
+Proof using HBS_lo HBS_hi HNB Hcrc.
   intros T H1 H2'. rewrite (H3 encs_of_app), N.add_0_l. fold T.
   destruct xs as [|x xs'] eqn:Ex.
   - cbn [ResyncProofs.encs_of app]. exists (c0 - lenN T + z).
-    rewrite app_nil_r, (@lenN_nil byte), zerosN_app. split; [reflexivity|]. split; [lia|].
+    rewrite app_nil_r, (@lenN_nil byte), zerosN_app. split; [reflexivity|]. split; [(ca_lia using H1)|].
     intros H; now destruct H.
   - rewrite <- Ex. assert (Hne : xs <> []) by (rewrite Ex; discriminate). clear Ex x xs'.
     pose proof (HW CrashTrace.encs_of_between (lenN T) c0 xs H1 H2' Hne) as E.
     exists z. rewrite <- E, <- !app_assoc. split; [reflexivity|].
-    rewrite !lenN_app, lenN_zerosN. split; [lia|]. intros _. lia.
+    rewrite !lenN_app, lenN_zerosN. split; [(ca_lia using H1)|]. intros _. (ca_lia using H1).
 Qed.
 
 (* room for the position entries of the recovery-time GC, whatever the resume point of the
@@ -739,40 +764,40 @@ Definition crash_bound (G : ghost) (X : list entry) (m : smap) : Prop :=
 
 Lemma crash_bound_ext G X m1 m2 :
   (forall q, s_get m2 q = s_get m1 q) -> crash_bound G X m1 -> crash_bound G X m2.
-Proof.
+Proof using Type.
   intros He Hb c extra Hx. apply Hb. apply (pos_extra_ext m2); [intros q; now rewrite He|exact Hx].
 Qed.
 
 Lemma ceil_block a : exists m, a <= m * B /\ m * B < a + B.
-Proof.
+Proof using HBS_lo HBS_hi HNB.
   exists ((a + B - 1) / B).
-  pose proof (N.div_mod (a + B - 1) B ltac:(lia)). pose proof (N.mod_lt (a + B - 1) B ltac:(lia)).
-  split; lia.
+  pose proof (N.div_mod (a + B - 1) B ltac:((ca_lia using HBS_lo))). pose proof (N.mod_lt (a + B - 1) B ltac:((ca_lia using HBS_lo))).
+  split; (ca_lia using HBS_lo).
 Qed.
 
 Lemma Forall2_right {A C} (R : A -> C -> Prop) (Q : C -> Prop) l1 l2 :
   Forall2 R l1 l2 -> (forall x y, R x y -> Q y) -> Forall Q l2.
-Proof. induction 1; intros H'; constructor; eauto. Qed.
+Proof using Type. induction 1; intros H'; constructor; eauto. Qed.
 
 (* what a reader skips before b does not reach into entries whose first frames are all >= b *)
 Lemma skipped_before_le b Bs : forall A a,
   Forall (fun s => b <= snd s) (starts (cursor_after a A) Bs) ->
   (length (skipped_before b a (A ++ Bs)) <= length A)%nat.
-Proof.
+Proof using HBS_lo HBS_hi HNB Hcrc.
   induction A as [|p A IH]; intros a HB; cbn [app].
-  - rewrite (H2 cursor_after_nil) in HB. destruct Bs as [|q Bs']; [cbn; lia|].
+  - rewrite (H2 cursor_after_nil) in HB. destruct Bs as [|q Bs']; [cbn; (ca_lia using HBS_lo)|].
     cbn [ResyncProofs.starts] in HB. inversion HB as [|? ? Hh _]; subst. cbn [snd] in Hh.
-    cbn [ResyncProofs.skipped_before]. destruct (N.leb_spec b (ffp a)); [cbn; lia|lia].
-  - cbn [ResyncProofs.skipped_before]. destruct (N.leb_spec b (ffp a)); [cbn; lia|].
+    cbn [ResyncProofs.skipped_before]. destruct (N.leb_spec b (ffp a)); [cbn; (ca_lia using HBS_lo)|(ca_lia using H Hh)].
+  - cbn [ResyncProofs.skipped_before]. destruct (N.leb_spec b (ffp a)); [cbn; (ca_lia using HBS_lo)|].
     cbn [length]. apply le_n_S. apply IH. now rewrite (H3 cursor_after_cons) in HB.
 Qed.
 
 Lemma fspec_tags_len lo n base fsx w0 tags es pf a0 :
   fspec P lo n base fsx w0 tags (starts a0 (ser es)) pf -> length tags = length es.
-Proof. intros (H & _). now rewrite H, (ResyncProofs.starts_length P), map_length. Qed.
+Proof using Type. intros (H & _). now rewrite H, (ResyncProofs.starts_length P), map_length. Qed.
 
 Lemma nil_dec {A} (l : list A) : {l = []} + {l <> []}.
-Proof. destruct l; [now left|right; discriminate]. Qed.
+Proof using Type. destruct l; [now left|right; discriminate]. Qed.
 
 Theorem C02_crash_atomic st G a o tick st' out :
   Inv st G -> w_pending (s_wr st) = [] -> s_pol st = PAlways a ->
@@ -787,7 +812,7 @@ Theorem C02_crash_atomic st G a o tick st' out :
       exists st_r, open P img None pol hint = OpenOk st_r /\
         ((forall q, s_get (abs_qs (s_qs st_r)) q = s_get (abs_qs (s_qs st)) q) \/
          (forall q, s_get (abs_qs (s_qs st_r)) q = s_get (abs_qs (s_qs st')) q)).
-Proof.
+Proof using HBS_lo HBS_hi HNB Hcrc HGC HIO HSHORT Hnc.
   intros HI Hp0 Hpol Hop Hbound Hcb Hcb' Hstep Hno.
   destruct (HG crash_image_shape st G a o tick st' out HI Hp0 Hpol Hop Hbound Hstep Hno)
     as (evs & Hev & Hfs & Hct & Himg). cbn zeta in *.
@@ -813,14 +838,14 @@ Proof.
   rewrite (vfs_nil w Hp0) in Hfull, Hfresh.
   set (fs0 := c_fs (w_ctx w)) in *. set (f0 := w_file w) in *.
   fold base in Hbase. fold lo in Hbase, Hn.
-  assert (Hlo : lo <= f0) by lia.
+  assert (Hlo : lo <= f0) by (ca_lia using Hn1 Hn).
   assert (Efiles : w_files w = nfiles lo f0).
   { rewrite (HN wr_ok_iota w Hok). fold lo. unfold nfiles. f_equal.
-    rewrite lenN_length in Hn. lia. }
+    rewrite lenN_length in Hn. (ca_lia using Hlo Hn). }
   assert (Hfull0 : forall n, lo <= n <= f0 -> full_file P fs0 n).
-  { intros n Hn'. apply Hfull. rewrite Efiles. apply (HN nfiles_In); lia. }
+  { intros n Hn'. apply Hfull. rewrite Efiles. apply (HN nfiles_In); (ca_lia using Hn1 Hn Hn'). }
   assert (Hgood : good P fs0 f0 U64_MAX).
-  { split; [apply Hfull0; lia|]. intros n H1 H2'. now apply Hfresh. }
+  { split; [apply Hfull0; (ca_lia using Hn1 Hn)|]. intros n H1 H2'. now apply Hfresh. }
   (* the state after the call *)
   destruct (HG step_call_trace st G a o tick st' out HI Hp0 Hpol Hbound Hstep Hno)
     as (_ & _ & _ & _ & Hp0'). cbn zeta in Hp0'.
@@ -836,39 +861,39 @@ Proof.
     as (m & mu & Hmu & Hmuf1 & Hgone & Hbelow & Hex & fc & Hfc & (Htopf & Htopn)).
   fold img in Hex, Htopf, Htopn.
   assert (Hlo'mu : lo' <= lo + N.of_nat mu).
-  { apply (Hdir (lo + N.of_nat mu) ltac:(lia)) in Hex. apply (HN nfiles_In) in Hex; lia. }
+  { apply (Hdir (lo + N.of_nat mu) ltac:((ca_lia using Hmuf1 Hu'))) in Hex. apply (HN nfiles_In) in Hex; (ca_lia using Hex Hlohi). }
   assert (Hlo'x : lo' <= wlo w').
   { assert (Hin : In (wlo w') (w_files w')).
-    { apply (HN RestartGc.wr_ok_In); [exact Hok'|lia]. }
+    { apply (HN RestartGc.wr_ok_In); [exact Hok'|(ca_lia using Hn1' Hn')]. }
     destruct (Hfull' _ Hin) as (b & Hb & _). rewrite Hfs in Hb.
     destruct (N.lt_ge_cases (wlo w') lo) as [Hlt|Hge].
     - rewrite (Hbelow _ Hlt) in Hb.
       assert (Hin0 : In (wlo w') (w_files w)).
-      { apply (Hdir0 Hu (wlo w') ltac:(lia)). now exists b. }
-      rewrite Efiles in Hin0. apply (HN nfiles_In) in Hin0; lia.
-    - destruct (N.lt_ge_cases (wlo w') (lo + N.of_nat m)) as [Hlt|Hge2]; [|lia].
-      rewrite (Hgone (wlo w') ltac:(lia)) in Hb. discriminate. }
+      { apply (Hdir0 Hu (wlo w') ltac:((ca_lia using Hn1' Hn' Hu'))). now exists b. }
+      rewrite Efiles in Hin0. apply (HN nfiles_In) in Hin0; (ca_lia using Hin0 Hlt Hn1 Hn).
+    - destruct (N.lt_ge_cases (wlo w') (lo + N.of_nat m)) as [Hlt|Hge2]; [|(ca_lia using Hge2 Hlo'mu Hmu)].
+      rewrite (Hgone (wlo w') ltac:((ca_lia using Hlt Hge))) in Hb. discriminate. }
   assert (Htop : top_file img hi).
   { assert (E : fc = hi).
-    { apply (Hdir fc ltac:(lia)) in Htopf. apply (HN nfiles_In) in Htopf; [|lia].
-      destruct (N.lt_ge_cases fc hi) as [Hlt|]; [|lia].
-      destruct (Hlens hi ltac:(lia)) as (b & Hb & _).
+    { apply (Hdir fc ltac:((ca_lia using Hfc Hu'))) in Htopf. apply (HN nfiles_In) in Htopf; [|(ca_lia using Hlohi)].
+      destruct (N.lt_ge_cases fc hi) as [Hlt|]; [|(ca_lia using H Htopf)].
+      destruct (Hlens hi ltac:((ca_lia using Hlohi))) as (b & Hb & _).
       rewrite (Htopn hi Hlt Hhimax) in Hb. discriminate. }
     subst fc. split; assumption. }
   clear Hex Htopf Htopn Hgone Hbelow Hfc.
   (* (S2) the image in the terms of TornFile *)
   set (n := N.to_nat (hi - lo')).
-  assert (Ecur : lo' + N.of_nat n = hi) by (unfold n; lia).
+  assert (Ecur : lo' + N.of_nat n = hi) by (unfold n; (ca_lia using Hlohi)).
   assert (Hlistx : list_wal_numbers img = iota lo' (S n)) by exact Hlist.
   assert (Hfilesx : forall f, In f (iota lo' (S n)) ->
             exists b, fs_get img (filename f) = Some (FFile b) /\ lenN b <= FB /\
                       (f <> lo' + N.of_nat n -> lenN b = FB)).
-  { intros f Hf. apply iota_In in Hf. destruct (Hlens f ltac:(lia)) as (b & Hb & Hlb').
+  { intros f Hf. apply iota_In in Hf. destruct (Hlens f ltac:((ca_lia using Hf Hlohi))) as (b & Hb & Hlb').
     exists b. split; [exact Hb|]. rewrite Ecur.
-    destruct (N.eqb_spec f hi) as [->|Hne]; destruct short; cbn [andb] in Hlb'; split; lia. }
+    destruct (N.eqb_spec f hi) as [->|Hne]; destruct short; cbn [andb] in Hlb'; split; (ca_lia using Hlb'). }
   assert (Eext : fs_ext P img lo' n = zext P img hi).
   { unfold fs_ext. rewrite Ecur. reflexivity. }
-  assert (Hbase'' : base <= lo') by lia.
+  assert (Hbase'' : base <= lo') by (ca_lia using Hbase).
   assert (HwfX : Forall wf_entry X).
   { pose proof (step_log_wf P st o (proj1 HL) (op_wf_strict_wf _ _ Hop)) as Hlw.
     unfold X. apply Forall_map. exact Hlw. }
@@ -885,27 +910,27 @@ Proof.
   rewrite <- ENEW, <- map_app, <- EALL' in ES', HlenT'1, HlenT'2.
   set (T' := encs_of 0 (ser (gh_ALL G'))) in *.
   assert (HTT' : lenN T <= lenN T').
-  { unfold T'. rewrite EALL', map_app, (H3 encs_of_app), lenN_app, <- ET. lia. }
+  { unfold T'. rewrite EALL', map_app, (H3 encs_of_app), lenN_app, <- ET. (ca_lia using HBS_lo). }
   assert (EcurT' : cursor_after 0 (ser (gh_ALL G ++ X)) = lenN T').
   { rewrite <- EALL'. apply (HN cursor_after_0). }
   destruct (ceil_block (lenN T')) as (mb & Hmb1 & Hmb2).
   assert (HlenS : lenN (T ++ zerosN (c0 - lenN T) ++ takeN j NEW ++ zerosN z) =
                   (lo' + N.of_nat n - base + 1) * FB).
   { rewrite !lenN_app, !lenN_zerosN, lenN_takeN, Ecur.
-    replace (hi - base + 1) with (hi + 1 - base) by lia. lia. }
+    replace (hi - base + 1) with (hi + 1 - base) by (ca_lia using Hbase Hlohi). (ca_lia using Hc1c Hlen Hj). }
   assert (Hcj : c0 + j <= mb * B).
   { destruct (nil_dec X) as [E0|Hne].
     - assert (j = 0).
       { rewrite ENEW, E0 in Hj. cbn [map ResyncProofs.encs_of] in Hj.
-        rewrite (@lenN_nil byte) in Hj. lia. }
+        rewrite (@lenN_nil byte) in Hj. (ca_lia using Hj). }
       assert (lenN T' = lenN T) by (unfold T'; now rewrite EALL', E0, app_nil_r).
-      pose proof (H2 ffp_le_boundary (lenN T) mb ltac:(lia)). lia.
+      pose proof (H2 ffp_le_boundary (lenN T) mb ltac:((ca_lia using Hmb1 HTT'))). (ca_lia using H1 H Hc2c).
     - assert (Hne' : ser X <> []) by (intros E; apply map_eq_nil in E; contradiction).
-      specialize (HlenT'2 Hne'). lia. }
+      specialize (HlenT'2 Hne'). (ca_lia using Hmb1 HlenT'2 Hj). }
   destruct nu as [|nu'].
   { (* ---------- no file has been unlinked yet ---------- *)
-    assert (Elo' : lo' = lo) by (unfold lo'; cbn; lia).
-    assert (Hb : (lo' - base) * FB <= c0) by (rewrite Elo', Ec0; lia).
+    assert (Elo' : lo' = lo) by (unfold lo'; cbn; (ca_lia using HBS_lo)).
+    assert (Hb : (lo' - base) * FB <= c0) by (rewrite Elo', Ec0; (ca_lia using HBS_lo)).
     rewrite <- Eext in Hstream.
     destruct (open_torn P HBS_lo HBS_hi HNB Hcrc Hnc img lo' n Hlistx Hfilesx base Hbase''
                 (gh_ALL G) X T c0 j z pol hint HIO HSHORT HWf HwfX
@@ -919,7 +944,7 @@ Proof.
     { rewrite gh_ALL_split in HE. symmetry in HE.
       apply app_eq_len in HE; [apply HE|].
       apply (f_equal (@length bytes)) in Hsuf. unfold gh_ser_E in Hsuf.
-      repeat rewrite map_length in Hsuf. repeat rewrite map_length. lia. }
+      repeat rewrite map_length in Hsuf. repeat rewrite map_length. (ca_lia using Hsuf). }
     subst E_suf.
     (* what is delivered of the new ones is a prefix of X *)
     assert (HXpre : exists Xr', X = Xd ++ Xr').
@@ -933,7 +958,7 @@ Proof.
     rewrite Hrep in Hopen.
     (* the resume point is in the range of the bound *)
     assert (Hpfhi : pf <= lenN T' + B).
-    { assert (pf <= mb * B); [|lia]. apply Hup; lia. }
+    { assert (pf <= mb * B); [|(ca_lia using H Hmb2)]. apply Hup; (ca_lia using Hcj Ec0). }
     rewrite Eext in Hspec.
     destruct (finish_ok img lo' hi base w0 tags _ pf qs' pol hint Hlohi Hhimax Hbase'' Hdir Htop
                 Hspec Hndq) as (st_r & Hfin & Eqr).
@@ -947,24 +972,24 @@ Proof.
     destruct Xd as [|x Xd'']; [left; now apply Hnil|right; apply Hcons; discriminate]. }
   (* ---------- some files have been unlinked: everything was written ---------- *)
   assert (Hjfull : j = lenN NEW) by (apply Hnuj; discriminate).
-  assert (Htk : takeN j NEW = NEW) by (apply takeN_all; lia).
+  assert (Htk : takeN j NEW = NEW) by (apply takeN_all; (ca_lia using Hnuj)).
   rewrite Htk, ES' in Hstream, HlenS.
   rewrite lenN_app, lenN_zerosN, Ecur in HlenS.
   change (gh_T P G') with T' in Hc1', Hc2'.
   set (c0' := (wlo w' - base) * FB + wpos P w') in *.
   assert (Hb' : (lo' - base) * FB <= c0').
-  { assert ((lo' - base) * FB <= (wlo w' - base) * FB) by (apply N.mul_le_mono_r; lia).
-    unfold c0'. lia. }
+  { assert ((lo' - base) * FB <= (wlo w' - base) * FB) by (apply N.mul_le_mono_r; (ca_lia using Hlo'x)).
+    unfold c0'. (ca_lia using H). }
   assert (Hc0'hi : c0' <= (hi + 1 - base) * FB).
-  { assert (E : (hi + 1 - base) * FB = ((hi + 1 - base) * NB P) * B) by (rewrite (HN FB_eq); lia).
+  { assert (E : (hi + 1 - base) * FB = ((hi + 1 - base) * NB P) * B) by (rewrite (HN FB_eq); (ca_lia using HBS_lo)).
     pose proof (H2 ffp_le_boundary (lenN T') ((hi + 1 - base) * NB P)) as Hf.
-    rewrite <- E in Hf. replace (hi - base + 1) with (hi + 1 - base) in HlenS by lia. lia. }
+    rewrite <- E in Hf. replace (hi - base + 1) with (hi + 1 - base) in HlenS by (ca_lia using Hbase Hlohi). (ca_lia using Hf HlenT'1 Hc2' Hnuj Hlen). }
   set (z' := (hi + 1 - base) * FB - c0').
   assert (ES2 : T' ++ zerosN zz =
                 T' ++ zerosN (c0' - lenN T') ++ encs_of c0' (ser []) ++ zerosN z').
   { cbn [map ResyncProofs.encs_of app].
     replace zz with ((c0' - lenN T') + z'); [now rewrite FileStream.zerosN_app|].
-    replace (hi - base + 1) with (hi + 1 - base) in HlenS by lia. unfold z'. lia. }
+    replace (hi - base + 1) with (hi + 1 - base) in HlenS by (ca_lia using Hbase Hlohi). unfold z'. (ca_lia using Hc0'hi HlenS Hc1'). }
   rewrite ES2 in Hstream. rewrite <- Eext in Hstream.
   assert (HlenS2 : lenN (T' ++ zerosN (c0' - lenN T') ++ encs_of c0' (ser []) ++ zerosN z') =
                    (lo' + N.of_nat n - base + 1) * FB).
@@ -981,7 +1006,7 @@ Proof.
     assert (HallE : Forall (fun s => (lo' - base) * FB <= snd s)
                            (starts (cursor_after 0 (gh_ser_before G')) (gh_ser_E G'))).
     { apply (Forall2_right _ _ _ _ HD2). intros fe s0 (Hs0 & _).
-      assert ((lo' - base) * FB <= (wlo w' - base) * FB) by (apply N.mul_le_mono_r; lia). lia. }
+      assert ((lo' - base) * FB <= (wlo w' - base) * FB) by (apply N.mul_le_mono_r; (ca_lia using Hlo'x)). (ca_lia using H Hs0). }
     pose proof (skipped_before_le _ _ _ _ HallE) as Hsk.
     rewrite <- gh_ser_split in Hsk. change (gh_ser G') with (ser (gh_ALL G')) in Hsk.
     rewrite <- Hpre in Hsk. unfold gh_ser_before in Hsk. rewrite !map_length in Hsk.
@@ -991,25 +1016,25 @@ Proof.
               (map_snd_combine_len _ _ Htl)) as (qs' & Hrep & Hqi & Hndq & Heq).
   rewrite Hrep in Hopen.
   assert (Hpfhi : pf <= lenN T' + B).
-  { assert (pf <= mb * B); [|lia]. apply Hup.
+  { assert (pf <= mb * B); [|(ca_lia using H Hmb2)]. apply Hup.
     - cbn [map ResyncProofs.encs_of]. rewrite (@lenN_nil byte), N.add_0_r.
-      pose proof (H2 ffp_le_boundary (lenN T') mb Hmb1). lia.
-    - pose proof (H2 ffp_le_boundary (lenN T') mb Hmb1). lia. }
+      pose proof (H2 ffp_le_boundary (lenN T') mb Hmb1). (ca_lia using H Hc2').
+    - pose proof (H2 ffp_le_boundary (lenN T') mb Hmb1). (ca_lia using H Hb' Hc2'). }
   rewrite Eext in Hspec.
   destruct (finish_ok img lo' hi base w0 tags _ pf qs' pol hint Hlohi Hhimax Hbase'' Hdir Htop
               Hspec Hndq) as (st_r & Hfin & Eqr).
   { intros extra Hx.
-    apply (crash_bound_ext G X _ (abs_qs qs') Heq Hcb' pf extra Hx); [change (lenN T <= pf); lia|].
+    apply (crash_bound_ext G X _ (abs_qs qs') Heq Hcb' pf extra Hx); [change (lenN T <= pf); (ca_lia using Hpf1 HTT')|].
     rewrite EcurT'. exact Hpfhi. }
   exists st_r. split; [now rewrite Hopen|]. rewrite Eqr. right. exact Heq.
 Qed.
 
 (* the stream bound of the call follows from the crash bound *)
 Lemma crash_bound_stream_bound G X m : crash_bound G X m -> stream_bound G X.
-Proof.
+Proof using HBS_lo HBS_hi HNB Hcrc.
   intros Hb. unfold RestartWrite.stream_bound.
   pose proof (Hb (cursor_after 0 (ser (gh_ALL G ++ X))) [] (pos_extra_nil m)) as H.
-  cbn [map] in H. rewrite (H2 cursor_after_nil) in H. apply H; [|lia].
+  cbn [map] in H. rewrite (H2 cursor_after_nil) in H. apply H; [|(ca_lia using HBS_lo)].
   rewrite map_app, (H3 cursor_after_app). fold (gh_ser G). rewrite (HN cursor_after_0).
   fold (gh_T P G). apply (H3 cursor_after_ge).
 Qed.
@@ -1021,20 +1046,20 @@ Definition crash_phys_bound (w : rwriter) (X : list entry) (m : smap) : Prop :=
     cursor_after c (ser extra) <= FB * (U64_MAX + 1).
 
 Lemma ffp_lt7 x : ffp x <= x + 6.
-Proof.
+Proof using HBS_lo HBS_hi HNB.
   unfold first_frame_pos. rewrite (lenN_pad_of P).
-  destruct (N.ltb_spec (B - x mod B) 7); lia.
+  destruct (N.ltb_spec (B - x mod B) 7); (ca_lia using H).
 Qed.
 
 Lemma crash_phys_bound_ghost w G X m : PInv w G -> crash_phys_bound w X m -> crash_bound G X m.
-Proof.
+Proof using HBS_lo HBS_hi HNB Hcrc.
   intros (Hw & _ & _ & Hbase & Hc1 & Hc2 & _) Hb c extra Hx Hlo Hhi. cbn zeta in *.
   pose proof Hw as (Hok & _). destruct (wr_ok_len P HB0c HNB w Hok) as (Hn & Hn1).
   set (c0 := (wlo w - gh_base G) * FB + wpos P w) in *.
   assert (Eabs : wabs P w = gh_base G * FB + c0).
   { unfold wabs, c0, wpos.
-    replace (w_file w) with (gh_base G + ((wlo w - gh_base G) + (lenN (w_files w) - 1))) by lia.
-    lia. }
+    replace (w_file w) with (gh_base G + ((wlo w - gh_base G) + (lenN (w_files w) - 1))) by (ca_lia using Hn1 Hn Hbase).
+    (ca_lia using HBS_lo). }
   assert (Hsh : forall x es, cursor_after (gh_base G * FB + x) es = gh_base G * FB + cursor_after x es).
   { intros x es. apply (cursor_after_shift P HBS_lo HBS_hi HNB Hcrc). apply (HN mulFB_mod). }
   specialize (Hb (gh_base G * FB + c) extra Hx). rewrite Hsh, Eabs, Hsh in Hb.
@@ -1042,12 +1067,12 @@ Proof.
   assert (HT' : cursor_after 0 (ser (gh_ALL G ++ X)) <= cursor_after c0 (ser X)).
   { rewrite map_app, (H3 cursor_after_app). fold (gh_ser G). rewrite (HN cursor_after_0).
     fold (gh_T P G). apply (cursor_after_between P HBS_lo HBS_hi HNB Hcrc); assumption. }
-  lia.
+  (ca_lia using HT' H7 Hhi Hlo Hb Hc2).
 Qed.
 
 (* ---------- (3) histories: policy and buffer ---------- *)
 Lemma step_pol st o tick : s_pol (fst (step P st o tick)) = s_pol st.
-Proof.
+Proof using Type.
   assert (Hpop : forall s t, s_pol (persist_on_policy s t) = s_pol s).
   { intros s t. unfold persist_on_policy.
     destruct (s_pol s) as [|f|f] eqn:E; [exact E|destruct t; exact E|exact E]. }
@@ -1075,7 +1100,7 @@ Qed.
 Lemma run_gc_pending st hint st' n :
   w_pending (s_wr st) = [] -> run_gc_if_necessary P st hint = (st', Ok n) ->
   w_pending (s_wr st') = [].
-Proof.
+Proof using HGC.
   intros Hp. unfold run_gc_if_necessary. destruct (has_deletable st).
   2:{ intros H; inversion H; subst. exact Hp. }
   unfold record_empty_queues_position.
@@ -1087,7 +1112,7 @@ Qed.
 
 Lemma open_pending fs pol hint st :
   open P fs None pol hint = OpenOk st -> w_pending (s_wr st) = [].
-Proof.
+Proof using HGC.
   unfold open, open_with.
   destruct (rd_open P (ctx_init fs None)) as [c [rd|e]]; [|discriminate].
   destruct (replay_loop P _ _ _ []) as [rr [qs| |e|]]; try discriminate.
@@ -1107,7 +1132,7 @@ Lemma hrun_always a h : forall st G st' outs,
   s_pol st = PAlways a -> w_pending (s_wr st) = [] ->
   hrun P st h = Some (st', outs) ->
   s_pol st' = PAlways a /\ w_pending (s_wr st') = [].
-Proof.
+Proof using HBS_lo HBS_hi HNB Hcrc HGC HIO.
   induction h as [|[o tick|pol hint] h IH]; intros st G st' outs HI Hok Hal Hpol Hp Hrun.
   - cbn [hrun] in Hrun. injection Hrun as <- _. auto.
   - cbn [hist_ok] in Hok. destruct Hok as (Hop & Hb & Hok). cbn [always_hist] in Hal.
@@ -1149,7 +1174,7 @@ Theorem C02_history a st0 h st outs o tick st' out :
       exists st_r, open P img None pol hint = OpenOk st_r /\
         ((forall q, s_get (abs_qs (s_qs st_r)) q = s_get m_before q) \/
          (forall q, s_get (abs_qs (s_qs st_r)) q = s_get m_after q)).
-Proof.
+Proof using HBS_lo HBS_hi HNB Hcrc HGC HIO HSHORT Hnc.
   intros Hopen Hrun Hok Hal Hop Hcb Hcb' Hstep.
   pose proof (inv_fresh P HBS_lo HBS_hi HNB (PAlways a) st0 Hopen) as HI0.
   destruct (hrun_inv P HBS_lo HBS_hi HNB Hcrc HGC HIO h st0 gh_fresh HI0 Hok)
@@ -1311,5 +1336,12 @@ Example crash_census_ex :
   crash_census st_ex (ODelete qa [qb]) (PAlways true) [] = (56, 26, 30, 0) /\
   unlinked_numbers st_ex (ODelete qa [qb]) = [Some 0; Some 1; Some 2; Some 3] /\
   crash_census st_ex (ODelete qb []) (PAlways true) [] = (30, 26, 4, 0).
-Proof. vm_compute. repeat split; reflexivity. Qed.
+Proof.
+  (* each equation is computed once, by the VM, when Qed checks the cast *)
+  repeat match goal with |- _ /\ _ => split end;
+    lazymatch goal with
+    | |- _ = ?r => vm_cast_no_check (@eq_refl _ r)
+    | |- _ => vm_compute; reflexivity
+    end.
+Qed.
 End CrashExample.
